@@ -59,22 +59,22 @@ type decision struct {
 
 // Config parameterises a run.
 type Config struct {
-	Prog       *ssa.Program
-	Entry      *ssa.Function
-	Tier       int
-	SolverBin  string
-	TimeoutMs  int
-	Workers    int
-	MaxSteps   int64 // per path
-	MaxDepth   int   // call depth
-	MaxPaths   int64
-	Known      map[string]bool // known-finding ids whose exclusion is active
-	StrMax     int
-	ModulePath string // e.g. github.com/Comcast/sheens
-	Deadline   time.Time
+	Prog          *ssa.Program
+	Entry         *ssa.Function
+	Tier          int
+	SolverBin     string
+	TimeoutMs     int
+	Workers       int
+	MaxSteps      int64 // per path
+	MaxDepth      int   // call depth
+	MaxPaths      int64
+	Known         map[string]bool // known-finding ids whose exclusion is active
+	StrMax        int
+	ModulePath    string // e.g. github.com/Comcast/sheens
+	Deadline      time.Time
 	MaxViolations int
-	Verbose    bool
-	SolverLog  string
+	Verbose       bool
+	SolverLog     string
 	// OrderInsensitive: functions whose map ranges are explored in insertion order only (see orderLemma)
 	OrderInsensitive map[string]bool
 }
@@ -90,21 +90,21 @@ type Violation struct {
 
 // Stats aggregates over all paths.
 type Stats struct {
-	Paths, Pruned, Infeasible int64
-	Decisions        int64
-	Sat, Unsat, Unknown int64
-	SolverTime       time.Duration
-	Steps            int64
+	Paths, Pruned, Infeasible               int64
+	Decisions                               int64
+	Sat, Unsat, Unknown                     int64
+	SolverTime                              time.Duration
+	Steps                                   int64
 	Asserts, AssertsProved, AssertsConcrete int64
-	Funcs            map[string]int64
-	Reach            map[string]int64
-	ReachCex         map[string]*Cex
-	Bounds           map[string]string
-	Models           map[string]bool
-	Notes            map[string]int64
-	Samples          []*Cex
-	MaxTrail         int
-	Labels           map[string]int64
+	Funcs                                   map[string]int64
+	Reach                                   map[string]int64
+	ReachCex                                map[string]*Cex
+	Bounds                                  map[string]string
+	Models                                  map[string]bool
+	Notes                                   map[string]int64
+	Samples                                 []*Cex
+	MaxTrail                                int
+	Labels                                  map[string]int64
 }
 
 type Result struct {
@@ -116,15 +116,15 @@ type Result struct {
 
 // Engine explores all paths of Entry.
 type Engine struct {
-	cfg   Config
-	mu    sync.Mutex
-	queue []task
-	busy  int
-	cond  *sync.Cond
-	res   Result
-	stop  bool
+	cfg      Config
+	mu       sync.Mutex
+	queue    []task
+	busy     int
+	cond     *sync.Cond
+	res      Result
+	stop     bool
 	seenViol map[string]bool
-	sizes types.Sizes
+	sizes    types.Sizes
 }
 
 func Run(cfg Config) *Result {
@@ -353,13 +353,13 @@ type Exec struct {
 	prog   *ssa.Program
 	solver *smt.Solver
 
-	prefix []int
-	trail  []decision
-	pcSet  map[string]bool
-	pc     []*smt.Term
-	symSet  map[string]bool // declared symbols
-	symUsed map[string]bool // symbols mentioned by a branch/assume/assert condition in the PC
-	unchecked bool          // the PC contains conjuncts added without a feasibility check
+	prefix          []int
+	trail           []decision
+	pcSet           map[string]bool
+	pc              []*smt.Term
+	symSet          map[string]bool // declared symbols
+	symUsed         map[string]bool // symbols mentioned by a branch/assume/assert condition in the PC
+	unchecked       bool            // the PC contains conjuncts added without a feasibility check
 	prefixUnchecked bool
 	// solver reuse: decisions [0,shared) and everything sent before decision `shared` are already on the
 	// solver's assertion stack; mute suppresses re-sending them during replay. shared<0: fresh solver.
@@ -374,45 +374,45 @@ type Exec struct {
 	globals map[*ssa.Global]*Cell
 	inited  map[*ssa.Package]bool
 
-	steps  int64
-	depth  int
-	outcome string
-	engineErr string
+	steps      int64
+	depth      int
+	outcome    string
+	engineErr  string
 	violations []*Violation
-	reach  map[string]*Cex
-	funcs  map[*ssa.Function]int64
-	bounds map[string]string
-	models map[string]bool
-	notes  map[string]int64
-	sample *Cex
+	reach      map[string]*Cex
+	funcs      map[*ssa.Function]int64
+	bounds     map[string]string
+	models     map[string]bool
+	notes      map[string]int64
+	sample     *Cex
 
 	nAsserts, nProved, nConcrete int64
 
 	// inputs recorded in call order for counterexample output
 	inputs []*inputRec
 	// write monitor
-	writes []writeRec
+	writes            []writeRec
 	mapOrderInsertion bool
 	noOrderLemma      bool
 	orderOnly         map[string]bool // when set: map orders are explored only inside these functions
-	logs   []Value
+	logs              []Value
 
-	sched *scheduler
-	preemptAtGo bool
+	sched          *scheduler
+	preemptAtGo    bool
 	preemptAtLocks bool
-	races     []RaceReport
-	harnessFn map[*ssa.Function]bool
-	spawnVC   vclock
-	parseMemo map[string]*parseRes
-	atomicOps int
-	initRunning *ssa.Function
-	pools     map[*Cell][]Value
-	locks     map[*Cell]*lockState
-	timerObjs map[*Cell]*timerObj
-	gojaMsgs  map[*Cell]string
-	boltFiles   map[string]*boltDBModel
-	boltTx      map[*Opaque]*boltTxState
-	boltBuckets map[*Opaque]*boltBucket
+	races          []RaceReport
+	harnessFn      map[*ssa.Function]bool
+	spawnVC        vclock
+	parseMemo      map[string]*parseRes
+	atomicOps      int
+	initRunning    *ssa.Function
+	pools          map[*Cell][]Value
+	locks          map[*Cell]*lockState
+	timerObjs      map[*Cell]*timerObj
+	gojaMsgs       map[*Cell]string
+	boltFiles      map[string]*boltDBModel
+	boltTx         map[*Opaque]*boltTxState
+	boltBuckets    map[*Opaque]*boltBucket
 }
 
 type inputRec struct {
